@@ -27,4 +27,130 @@ theorem mem_insertPlaced (r x : Placed) : ∀ l : List Placed, x ∈ insertPlace
         · exact Or.inl h
         · exact Or.inr (Or.inr h)
 
+theorem sliceCmp_lt_trans : ∀ (a b c : List Nat), sliceCmp a b = .lt → sliceCmp b c = .lt → sliceCmp a c = .lt
+  | [], [], _, h, _ => by simp [sliceCmp] at h
+  | [], _ :: _, [], _, h => by simp [sliceCmp] at h
+  | [], _ :: _, _ :: _, _, _ => rfl
+  | _ :: _, [], _, h, _ => by simp [sliceCmp] at h
+  | _ :: _, _ :: _, [], _, h => by simp [sliceCmp] at h
+  | x :: xs, y :: ys, z :: zs, h1, h2 => by
+    simp only [sliceCmp] at h1 h2 ⊢
+    by_cases hxy : x < y
+    · by_cases hyz : y < z
+      · have : x < z := Nat.lt_trans hxy hyz
+        simp [this]
+      · simp only [hyz, if_false] at h2
+        by_cases hzy : z < y
+        · simp [hzy] at h2
+        · have : y = z := by omega
+          subst this; simp [hxy]
+    · simp only [hxy, if_false] at h1
+      by_cases hyx : y < x
+      · simp [hyx] at h1
+      · simp only [hyx, if_false] at h1
+        have hxy' : x = y := by omega
+        subst hxy'
+        by_cases hyz : x < z
+        · simp [hyz]
+        · simp only [hyz, if_false] at h2 ⊢
+          by_cases hzy : z < x
+          · simp [hzy] at h2
+          · simp only [hzy, if_false] at h2 ⊢
+            exact sliceCmp_lt_trans xs ys zs h1 h2
+
+theorem sliceCmp_eq_iff : ∀ (a b : List Nat), sliceCmp a b = .eq ↔ a = b
+  | [], [] => by simp [sliceCmp]
+  | [], _ :: _ => by simp [sliceCmp]
+  | _ :: _, [] => by simp [sliceCmp]
+  | x :: xs, y :: ys => by
+    simp only [sliceCmp]
+    by_cases hxy : x < y
+    · simp [hxy]; omega
+    · by_cases hyx : y < x
+      · simp [hxy, hyx]; omega
+      · have : x = y := by omega
+        subst this
+        simp [sliceCmp_eq_iff xs ys]
+
+theorem placedLt_trans (a b c : Placed) (h1 : placedLt a b = true) (h2 : placedLt b c = true) : placedLt a c = true := by
+  unfold placedLt at *
+  cases hab : sliceCmp a.imports b.imports with
+  | gt => simp [hab] at h1
+  | lt =>
+    cases hbc : sliceCmp b.imports c.imports with
+    | gt => simp [hbc] at h2
+    | lt => simp [sliceCmp_lt_trans _ _ _ hab hbc]
+    | eq =>
+      have := (sliceCmp_eq_iff _ _).mp hbc
+      rw [← this, hab]
+  | eq =>
+    have hab' := (sliceCmp_eq_iff _ _).mp hab
+    rw [hab'] 
+    cases hbc : sliceCmp b.imports c.imports with
+    | gt => simp [hbc] at h2
+    | lt => rfl
+    | eq =>
+      simp only [hab, hbc] at h1 h2 ⊢
+      simp only [decide_eq_true_eq] at h1 h2 ⊢
+      omega
+
+
+theorem sliceCmp_swap : ∀ (a b : List Nat), sliceCmp b a = (sliceCmp a b).swap
+  | [], [] => rfl
+  | [], _ :: _ => rfl
+  | _ :: _, [] => rfl
+  | x :: xs, y :: ys => by
+    simp only [sliceCmp]
+    by_cases hxy : x < y
+    · have : ¬ y < x := by omega
+      simp [hxy, this, Ordering.swap]
+    · by_cases hyx : y < x
+      · simp [hxy, hyx, Ordering.swap]
+      · simp [hxy, hyx, sliceCmp_swap xs ys]
+
+theorem placedLt_asymm (a b : Placed) (h : placedLt a b = true) : placedLt b a = false := by
+  unfold placedLt at *
+  rw [sliceCmp_swap a.imports b.imports]
+  cases hab : sliceCmp a.imports b.imports with
+  | gt => simp [hab] at h
+  | lt => simp [Ordering.swap]
+  | eq =>
+    simp only [hab, decide_eq_true_eq] at h
+    simp only [Ordering.swap, decide_eq_false_iff_not]
+    omega
+
+/-- listed in key order: no later recipe's key is smaller than an earlier one's -/
+def InKeyOrder (l : List Placed) : Prop := l.Pairwise (fun a b => placedLt b a = false)
+
+theorem insertPlaced_inKeyOrder (r : Placed) : ∀ l : List Placed, InKeyOrder l → InKeyOrder (insertPlaced r l)
+  | [], _ => by simp [insertPlaced, InKeyOrder]
+  | x :: xs, h => by
+    unfold insertPlaced
+    have hx := List.pairwise_cons.mp h
+    split
+    · rename_i hlt
+      refine List.pairwise_cons.mpr ⟨?_, h⟩
+      intro y hy
+      rcases List.mem_cons.mp hy with rfl | hy
+      · exact placedLt_asymm _ _ hlt
+      · cases hyr : placedLt y r with
+        | false => rfl
+        | true =>
+          have := placedLt_trans y r x hyr hlt
+          rw [hx.1 y hy] at this
+          cases this
+    · rename_i hnlt
+      refine List.pairwise_cons.mpr ⟨?_, insertPlaced_inKeyOrder r xs hx.2⟩
+      intro y hy
+      rcases (mem_insertPlaced r y xs).mp hy with rfl | hy
+      · simpa using hnlt
+      · exact hx.1 y hy
+
+theorem unsortedOrder_inKeyOrder : ∀ l : List Placed, InKeyOrder (unsortedOrder l)
+  | [] => by simp [unsortedOrder, InKeyOrder]
+  | a :: l => by
+    have ih := unsortedOrder_inKeyOrder l
+    simp only [unsortedOrder, List.foldr_cons] at ih ⊢
+    exact insertPlaced_inKeyOrder a _ ih
+
 end Just.Listing
